@@ -221,6 +221,9 @@ int main(int argc, char **argv) {
     write(1, "up\n", 3);
     for (int k = 0; k < 60; k++) { struct timespec ts = {1, 0}; nanosleep(&ts, NULL); }
     _exit(0);
+  } else if (!strcmp(c, "mark")) {
+    int fd = open(argv[2], O_CREAT | O_WRONLY, 0600); if (fd >= 0) close(fd);
+    _exit(fd >= 0 ? 0 : 99);
   } else if (!strcmp(c, "hello")) {
     write(1, "hello\n", 6); _exit(0);
   }
